@@ -25,11 +25,15 @@ class Contract:
         self.raises = {k: _labelled(v) for k, v in g("raises", {}).items()}
         self.only_raises = g("only_raises", None)
         self.result = g("result", None)
+        self.result_by_case = g("result_by_case", {})
         # fields of a record result that alias arguments: name -> spec expression over the parameters.
         # Each entry is also a postcondition `result.<name> is <expr>` proved on the body.
         self.result_fields = g("result_fields", {})
         self.loops = g("loops", {})
         self.definitional = g("definitional", [])   # labels of ghost-marker clauses: assumed at call sites, not obligations
+        # region verification: only the statements around one loop of a function that is otherwise outside
+        # the subset: dict(loop=<static ordinal>, lead=<statements before it in the same block>)
+        self.region = g("region", None)
         self.comprehensions = g("comprehensions", {})   # ordinal (source order) -> "lambda x: <element spec>"
         self.modifies = g("modifies", [])
         self.frame = g("frame", None)            # names of parameters that must not be mutated
